@@ -130,3 +130,14 @@ def big_cases(rng, tier):
 
 def be_cases(rng, tier):
     return cases(rng, tier, be=True)
+
+
+def extra(ctx):
+    """the translated programs cited by the C07_source_* theorems, run inside Coq on the streams the C functions get (checks/impdiff.py)"""
+    import random
+    from checks import impdiff
+    n = {"quick": 150, "thorough": 1500, "search": 60}.get(ctx["tier"], 150)
+    diffs, cov = impdiff.run(ctx, random.Random(ctx["seed"] * 7717 + 11), n)
+    corr = [{"case": None, "fails": ["translated program and compiled function differ: " + d], "diffs": []} for d in diffs[:5]]
+    cov = dict(cov); cov["evaluations"] = cov.get("imp_runs", 0)
+    return [], corr, cov
